@@ -213,7 +213,7 @@ fn aig_tail(a: &Aig, rng: &mut StdRng, out: &mut Vec<u8>) {
     sym('f', a.f.len(), out, rng);
     if rng.gen_range(0..3) == 0 {
         out.extend_from_slice(b"c\n");
-        out.extend_from_slice([&b"comment\n"[..], b"\n", b"two\nlines\n", b""][rng.gen_range(0..4)]);
+        out.extend_from_slice([&b"comment\n"[..], b"\n", b"two\nlines\n", b"", b"a\nb b\n\nc \xc3\xa9\nlast line\n", b"first\nsecond\nthird\n"][rng.gen_range(0..6)]);
         if out.last() != Some(&b'\n') {
             out.push(b'\n');
         }
@@ -360,7 +360,7 @@ pub fn mutate(doc: &[u8], rng: &mut StdRng) -> Vec<u8> {
     if d.is_empty() {
         return vec![rng.gen()];
     }
-    match rng.gen_range(0..12) {
+    match rng.gen_range(0..14) {
         0 => {
             let i = rng.gen_range(0..d.len());
             d[i] = rng.gen();
@@ -422,6 +422,30 @@ pub fn mutate(doc: &[u8], rng: &mut StdRng) -> Vec<u8> {
             let i = rng.gen_range(0..=d.len());
             let rep = HUGE[rng.gen_range(0..HUGE.len())].as_bytes();
             d.splice(i..i, rep.iter().copied());
+        }
+        11 => {
+            // a long garbage word mixing ASCII and multi-byte UTF-8 (error messages quote up to 60 bytes of it)
+            let i = rng.gen_range(0..=d.len());
+            let mut w: Vec<u8> = vec![];
+            for _ in 0..rng.gen_range(0..4) {
+                w.push(b'x');
+            }
+            while w.len() < 58 + rng.gen_range(0..12) {
+                match rng.gen_range(0..3) {
+                    0 => w.push(b'a' + rng.gen_range(0..26)),
+                    1 => w.extend_from_slice("\u{e9}".as_bytes()),
+                    _ => w.extend_from_slice("\u{20ac}".as_bytes()),
+                }
+            }
+            d.splice(i..i, w);
+        }
+        12 => {
+            // a run of 8..12 varint continuation bytes followed by a final byte
+            let i = rng.gen_range(0..=d.len());
+            let n = rng.gen_range(8..13);
+            let mut junk: Vec<u8> = (0..n).map(|_| [0x80u8, 0x81, 0xff, 0x80][rng.gen_range(0..4)]).collect();
+            junk.push([0x00u8, 0x01, 0x7f][rng.gen_range(0..3)]);
+            d.splice(i..i, junk);
         }
         _ => {
             // over-long varint / binary junk
@@ -726,6 +750,32 @@ pub fn corrupt(parser: &str, lit: &str, doc: &[u8], rng: &mut StdRng) -> Option<
             toks.push((s, i, line, line_start));
         }
     }
+    // AIGER comment section: invalid UTF-8 at a known byte of a later comment line (the error must name that
+    // line and column), or the final newline dropped (the error must be on the last line)
+    if parser == "aag" && in_comment_section && rng.gen_range(0..3) == 0 {
+        if let Some(cstart) = doc.windows(3).position(|w| w == b"\nc\n").map(|p| p + 3) {
+            let body = &doc[cstart..];
+            let line0 = 1 + doc[..cstart].iter().filter(|&&b| b == b'\n').count();
+            if rng.gen_bool(0.5) && body.len() > 1 && body.ends_with(b"\n") {
+                // drop the final newline: error at the end of the last line
+                let d = doc[..doc.len() - 1].to_vec();
+                let last_start = d.iter().rposition(|&b| b == b'\n').map_or(0, |p| p + 1);
+                let line = 1 + d[..last_start].iter().filter(|&&b| b == b'\n').count();
+                let col = d.len() - last_start + 1;
+                return Some(Corruption { doc: d, line, col_lo: col, col_hi: col, kind: "no_final_newline" });
+            }
+            let cands: Vec<usize> = (0..body.len()).filter(|&k| body[k] != b'\n' && body[k] < 0x80).collect();
+            if !cands.is_empty() {
+                let k = cstart + cands[rng.gen_range(0..cands.len())];
+                let mut d = doc.to_vec();
+                d[k] = 0xff;
+                let ls = d[..k].iter().rposition(|&b| b == b'\n').map_or(0, |p| p + 1);
+                let line = 1 + d[..ls].iter().filter(|&&b| b == b'\n').count();
+                let _ = line0;
+                return Some(Corruption { doc: d, line, col_lo: k - ls + 1, col_hi: k - ls + 1, kind: "utf8_in_comment" });
+            }
+        }
+    }
     if toks.is_empty() {
         return None;
     }
@@ -842,14 +892,14 @@ pub fn gen_aiger_bounds(binary: bool, rng: &mut StdRng) -> Vec<u8> {
                 3 => 1u128 << (7 * rng.gen_range(1..10)),
                 _ => rng.gen_range(0..=code) as u128,
             };
-            encode_delta_padded(d0, if rng.gen_range(0..5) == 0 { rng.gen_range(1..9) } else { 0 }, &mut out);
+            encode_delta_padded(d0, if rng.gen_range(0..4) == 0 { rng.gen_range(1..13) } else { 0 }, &mut out);
             let in0 = (code as u128).saturating_sub(d0);
             let d1: u128 = match rng.gen_range(0..6) {
                 0 => in0 + 1,
                 1 => (1u128 << 63) + 5,
                 _ => rng.gen_range(0..=in0.min(1000)) as u128,
             };
-            encode_delta_padded(d1, if rng.gen_range(0..6) == 0 { rng.gen_range(1..9) } else { 0 }, &mut out);
+            encode_delta_padded(d1, if rng.gen_range(0..5) == 0 { rng.gen_range(1..13) } else { 0 }, &mut out);
         } else {
             out.extend_from_slice(format!("{} {} {}\n", def(i + l + k, rng), lit(rng), lit(rng)).as_bytes());
         }
